@@ -34,55 +34,113 @@ class Body:
 
 class Summary:
     """P2 summary of the nested interpreter: arbitrary (bounded) effect on stack and byte-keyed cache, may
-    execute a RETURN (then cache['returned'] = True, tape pointer at the end), may raise.  The symbolic
-    choices are inputs `body<k>.*`; the same object tells a reference model what the bodies did."""
+    execute a flag instruction (the real OP_SET_FLAG / OP_UNSET_FLAG on flag 1), may execute a RETURN (then
+    cache['returned'] = True, tape pointer at the end), may raise.  The symbolic choices are inputs `body<k>.*`;
+    the same object tells a reference model what the bodies did."""
 
     def __init__(self, pkg, pops=1, pushes=1, may_raise=True, may_return=True, writes_cache=True,
-                 max_bodies=6, real_flags=True):
+                 max_bodies=6, real_flags=True, flag_ops=False, parent=None):
         self.pkg = pkg
         self.pops, self.pushes = pops, pushes
         self.may_raise, self.may_return, self.writes_cache = may_raise, may_return, writes_cache
         self.max_bodies = max_bodies
         self.real_flags = real_flags
+        self.flag_ops = flag_ops
+        self.parent = parent
         self.bodies = []
 
+    # the three things a concrete replay answers from the counterexample instead
+    def _bool(self, name):
+        return bool(fresh_bool(name))
+
+    def _bytes(self, name, n):
+        return fresh_bytes(name, n)
+
+    def _newdict(self):
+        return SDict()
+
+    def _too_many(self):
+        eng().fail(stubs.BoundExceeded, 'more nested bodies than the summary bound')
+
     def __call__(self, tape, stack, cache, additional_flags=None):
-        e = eng()
         k = len(self.bodies)
         if k >= self.max_bodies:
-            e.fail(stubs.BoundExceeded, 'more nested bodies than the summary bound')
+            self._too_many()
         if additional_flags is None:
-            additional_flags = SDict()
+            additional_flags = self._newdict()
         b = Body(k, tape, stack, cache, additional_flags)
         self.bodies.append(b)
+        if self.parent is not None:
+            pf = self.parent.flags
+            b.parent_flags_at_entry = pf.copy() if hasattr(pf, 'copy') else dict(pf)
         if self.real_flags:
             # the real flag computation of run_tape (set_tape_flags) still runs
             self.pkg.functions.set_tape_flags(tape, additional_flags)
         b.effective_flags = tape.flags.copy() if hasattr(tape.flags, 'copy') else dict(tape.flags)
         # stack / cache effect: one of {nothing, pop one, push one (+ write a byte-keyed cache entry)}
         b.popped, b.pushed, b.wrote = [], [], None
-        if self.pops and len(stack) and bool(fresh_bool(f'body{k}.pops')):
+        if self.pops and len(stack) and self._bool(f'body{k}.pops'):
             b.popped.append(stack.get())
-        elif self.pushes and bool(fresh_bool(f'body{k}.pushes')):
-            it = fresh_bytes(f'body{k}.item', 1)
+        elif self.pushes and self._bool(f'body{k}.pushes'):
+            it = self._bytes(f'body{k}.item', 1)
             stack.put(it)
             b.pushed.append(it)
             if self.writes_cache:
-                key = fresh_bytes(f'body{k}.key', 1)
-                cache[key] = [fresh_bytes(f'body{k}.val', 1)]
+                key = self._bytes(f'body{k}.key', 1)
+                cache[key] = [self._bytes(f'body{k}.val', 1)]
                 b.wrote = key
-        if self.may_raise and bool(fresh_bool(f'body{k}.raises')):
+        b.flag_op = None
+        if self.flag_ops:
+            # the body executes a real flag instruction on its own tape's flags
+            F, C = self.pkg.functions, self.pkg.classes
+            if self._bool(f'body{k}.set_flag1'):
+                b.flag_op = 'OP_SET_FLAG'
+            elif self._bool(f'body{k}.unset_flag1'):
+                b.flag_op = 'OP_UNSET_FLAG'
+            if b.flag_op:
+                getattr(F, b.flag_op)(C.Tape(b'\x01\x01', flags=tape.flags), stack, cache)
+        b.flags_at_exit = tape.flags.copy() if hasattr(tape.flags, 'copy') else dict(tape.flags)
+        if self.may_raise and self._bool(f'body{k}.raises'):
             b.raised = True
             b.returned = False
             raise self.pkg.errors.ScriptExecutionError(f'body {k} failed')
         b.raised = False
-        if self.may_return and bool(fresh_bool(f'body{k}.returns')):
+        if self.may_return and self._bool(f'body{k}.returns'):
             b.returned = True
             tape.pointer = len(tape.data)
             cache['returned'] = True
         else:
             b.returned = False
             tape.pointer = len(tape.data)
+
+
+class ConcreteSummary(Summary):
+    """the P2 summary replayed on the real package: the body choices of a counterexample (inputs `body<k>.*`)
+    are applied to the real Tape / Stack / cache objects the real instruction hands to run_tape"""
+
+    def __init__(self, pkg, inputs, **kw):
+        kw.setdefault('max_bodies', 64)
+        super().__init__(pkg, **kw)
+        self.inputs = inputs
+
+    def _bool(self, name):
+        return bool(self.inputs.get(name, False))
+
+    def _bytes(self, name, n):
+        v = self.inputs.get(name)
+        v = bytes(v) if isinstance(v, (bytes, bytearray)) else b''
+        return (v + b'\x00' * n)[:n]
+
+    def _newdict(self):
+        return {}
+
+    def _too_many(self):
+        raise RuntimeError('more nested bodies than the replay bound')
+
+
+def make_summary(c, pkg, **kw):
+    """the summary for the harness context: symbolic on a path, concrete in a replay"""
+    return ConcreteSummary(pkg, c.inputs, **kw) if getattr(c, 'concrete', False) else Summary(pkg, **kw)
 
 
 class Installed:
@@ -225,12 +283,16 @@ class StubContract:
         return [self.c.bytes('contract.abi_ret', 1)]
 
 
+BLOB = b'\x05\x06'
+
+
 def generic_cache(c):
     d = SDict()
     d['sigfield1'] = c.bytes('sigfield1', 1)
     d['sigfield2'] = c.bytes('sigfield2', 2)
     d['timestamp'] = c.int('timestamp', 0, 2 ** 64)
     d['custom'] = 'text'
+    d['blob'] = bytearray(BLOB)              # an embedder-owned *mutable* value: must never be aliased or altered
     d[b'k'] = [c.bytes('cache_k', 1)]
     d[c.bytes('cache_key', 1)] = [c.bytes('cache_v0', 1), c.bytes('cache_v1', 2)]
     d.wlog = []
@@ -335,7 +397,7 @@ class RecDict(dict):
 
 
 def concrete_generic_step(inputs, params):
-    """the generic step on the real package (non-nesting ops only: nested runs are summarised symbolically)"""
+    """the generic step on the real package; nested runs go to the concrete replay of the summary"""
     import tapescript
     import tapescript.functions as RF
     from collections import deque
@@ -364,16 +426,25 @@ def concrete_generic_step(inputs, params):
     dict.__setitem__(cache, 'sigfield2', inputs.get('sigfield2', b''))
     dict.__setitem__(cache, 'timestamp', inputs.get('timestamp', 0))
     dict.__setitem__(cache, 'custom', 'text')
+    dict.__setitem__(cache, 'blob', bytearray(BLOB))
     dict.__setitem__(cache, b'k', [inputs.get('cache_k', b'')])
     dict.__setitem__(cache, inputs.get('cache_key', b'z'), [inputs.get('cache_v0', b''), inputs.get('cache_v1', b'')])
     pre = {k: v for k, v in cache.items() if isinstance(k, str)}
     RF.token_bytes = rec_tb
+    from sx.harness import real_package
+    summ = ConcreteSummary(real_package(), inputs)
+    old_rt = RF.run_tape
+    RF.run_tape = summ
+    pre_count = tape.callstack_count
+    pre_flags = dict(tape.flags)
     try:
         fn = RF.opcodes_inverse[op][1] if isinstance(op, str) else RF.NOP
         r = outcome_of(fn, tape, stack, cache)
     finally:
         RF.token_bytes = old_tb
-    return dict(r=r, stack=stack, tape=tape, cache=cache, pre_str=pre, allocs=allocs, max_items=mi, max_item_size=ms)
+        RF.run_tape = old_rt
+    return dict(r=r, stack=stack, tape=tape, cache=cache, pre_str=pre, allocs=allocs, max_items=mi, max_item_size=ms,
+                summ=summ, pre_count=pre_count, pre_flags=pre_flags)
 
 
 def witness_observables(c, op, st, r, summ):
